@@ -1075,6 +1075,34 @@ class Inliner:
         blocks[b]["term"] = dict(goto, adaptor="array-next")
         return []
 
+    def _expand_option_as_ref_iter(self, b, t, callee, locals_, blocks):
+        """`opt.iter()`: modelled as the `Option<&T>` it hands out once (`Some(&payload)` / `None`); `next` on it is
+        expanded like `Option::into_iter`'s."""
+        args = t["args"]
+        if len(args) != 1 or args[0]["k"] not in ("move", "copy") or t.get("target") is None:
+            return None
+        span = {k: t.get(k) for k in ("file", "line", "exp", "macro")}
+        cleanup = blocks[b]["cleanup"]
+        goto = {"k": "goto", "target": t["target"], **span}
+        dl = len(locals_)
+        locals_.append({"ty": {"s": "isize", "k": "int", "hp": False, "nd": False, "dp": 0}, "name": None})
+        rl = len(locals_)
+        locals_.append({"ty": {"s": "&?", "k": "ref", "hp": False, "nd": False, "dp": 0}, "name": None})
+        base = copy.deepcopy(args[0]["pl"])
+        base["p"] = base["p"] + ["*"]
+        blocks[b]["stmts"].append({"k": "assign", "dst": {"l": dl, "p": []}, "rv": {"k": "discr", "pl": copy.deepcopy(base)}, **span})
+        pay = copy.deepcopy(base)
+        pay["p"] = pay["p"] + [{"dc": "Some", "vi": 1}, {"f": 0, "n": "0", "of": "core::option::Option"}]
+        nb0 = len(blocks)
+        some = {"k": "agg", "ak": "adt", "name": "core::option::Option", "variant": "Some", "vidx": 1, "fields": ["0"], "ops": [{"k": "move", "pl": {"l": rl, "p": []}}]}
+        none = {"k": "agg", "ak": "adt", "name": "core::option::Option", "variant": "None", "vidx": 0, "fields": [], "ops": []}
+        blocks.append({"cleanup": cleanup, "stmts": [{"k": "assign", "dst": {"l": rl, "p": []}, "rv": {"k": "ref", "mut": False, "pl": pay}, **span},
+                                                      {"k": "assign", "dst": copy.deepcopy(t["dst"]), "rv": some, **span}], "term": dict(goto)})
+        blocks.append({"cleanup": cleanup, "stmts": [{"k": "assign", "dst": copy.deepcopy(t["dst"]), "rv": none, **span}], "term": dict(goto)})
+        blocks.append({"cleanup": cleanup, "stmts": [], "term": {"k": "unreachable", **span}})
+        blocks[b]["term"] = {"k": "switch", "discr": {"k": "move", "pl": {"l": dl, "p": []}}, "targets": [["1", nb0], ["0", nb0 + 1]], "otherwise": nb0 + 2, **span, "adaptor": "option-iter"}
+        return [nb0, nb0 + 1, nb0 + 2]
+
     def _expand_option_iter(self, b, t, callee, locals_, blocks):
         """`opt.into_iter()` is modelled as the Option itself, and `next` on it hands the Option out and leaves None behind
         (an Option's iterator yields its payload at most once)."""
@@ -1088,7 +1116,7 @@ class Inliner:
             blocks[b]["stmts"].append({"k": "assign", "dst": copy.deepcopy(t["dst"]), "rv": {"k": "use", "op": copy.deepcopy(args[0])}, **span})
             blocks[b]["term"] = dict(goto, adaptor="option-into_iter")
             return []
-        if st.get("adt") != "core::option::IntoIter" or st.get("peel", 0) != 0 or len(args) != 1 or args[0]["k"] not in ("move", "copy") or args[0]["pl"]["p"]:
+        if st.get("adt") not in ("core::option::IntoIter", "core::option::Iter") or st.get("peel", 0) != 0 or len(args) != 1 or args[0]["k"] not in ("move", "copy") or args[0]["pl"]["p"]:
             return None
         # the receiver is `&mut it` taken in this block
         rl = args[0]["pl"]["l"]
@@ -1375,6 +1403,10 @@ class Inliner:
                 return r
         if callee is not None and callee["def"] == "core::iter::Iterator::for_each":
             return self._expand_for_each(b, t, callee, locals_, blocks)
+        if callee is not None and callee["def"] == "core::option::Option::<T>::iter":
+            r = self._expand_option_as_ref_iter(b, t, callee, locals_, blocks)
+            if r is not None:
+                return r
         if callee is not None and callee["def"] in ("core::iter::IntoIterator::into_iter", "core::iter::Iterator::next"):
             r = self._expand_option_iter(b, t, callee, locals_, blocks)
             if r is not None:
@@ -2212,7 +2244,14 @@ class Inliner:
                     t["args"] = nargs
                     t["untupled"] = True
                     return None, None, None
-                return f, None, self._untuple(tup, f.argc)
+                sub = None
+                if f.f.get("trait_default_of") and fty.get("fnin"):
+                    # a provided trait method used as a fn item (`opt.iter().for_each(RcInnerPtr::inc_weak)`): Self is the
+                    # type of its receiver
+                    recv = fty["fnin"][0]
+                    if recv.get("adt"):
+                        sub = dict(recv, peel=0, k="adt", s=str(recv.get("s", "")).lstrip("&").replace("mut ", ""))
+                return f, sub, self._untuple(tup, f.argc)
             return None, None, None
         f, sub = self.resolve(callee, self_subst)
         if f is None:
